@@ -49,7 +49,7 @@ type boxWrite struct {
 }
 
 type boxMonFlags struct {
-	c01, c02, c03, c06, c07, c11, c18 bool
+	c01, c02, c03, c06, c07, c11, c18, c04 bool
 }
 
 // boxResourcesKey: the resources a pool configuration is computed from, independent of listing order.
@@ -92,6 +92,7 @@ type cbox struct {
 	faultBudget int
 	faultsInjected int
 	notified  map[string][4]int64 // pool -> counters read at the moment of its last change notification
+	gainedLater map[string]bool // services whose second address came from the additional-family step
 	lastFailed string // service whose status write failed last (cleared by its next successful write)
 	writes    []boxWrite
 	memLog    []boxWrite // every change of a service's addresses in the allocator memory
